@@ -176,6 +176,29 @@ def drive(tier):
         dersig(bytes(m_))
     for b_ in (b"", b"\x30", b"\x31\x00", b"\x30\x00", b"\x30\x02\x02\x00", b"\x30\x04\x02\x00\x02\x00", b"\x30\x06\x02\x01\x01\x02\x01\x01", b"\x30\x05\x02\x00\x02\x00\x00"):
         dersig(b_)
+    # ---- address conveniences
+    from bitcoin.wallet import CBitcoinAddress as _A, P2SHBitcoinAddress as _P2SH, P2PKHBitcoinAddress as _P2PKH
+    CLS = {"P2PKHBitcoinAddress": "P2PKH", "P2SHBitcoinAddress": "P2SH", "P2WPKHBitcoinAddress": "P2WPKH", "P2WSHBitcoinAddress": "P2WSH"}
+    for ch in ("mainnet", "testnet", "regtest", "mainnet"):
+        bitcoin.SelectParams(ch)
+        for _ in range(3):
+            h20, h32 = gen.rbytes(r, 20), gen.rbytes(r, 32)
+            for spk in (b"\x76\xa9\x14" + h20 + b"\x88\xac", b"\xa9\x14" + h20 + b"\x87", b"\x00\x14" + h20, b"\x00\x20" + h32):
+                a = _A.from_scriptPubKey(CScript(spk))
+                k, v = call(a.to_redeemScript)
+                R.add("x.redeem", {"a": {"cls": CLS[type(a).__name__], "payload": b2l(a.to_bytes() if hasattr(a, "to_bytes") else bytes(a))}},
+                      dict({"k": "ret", "s": b2l(v)} if k == "ret" else dict(exc_info(v), k="exc"), spk=b2l(a.to_scriptPubKey())), chain=ch)
+            for n in (0, 1, 25, 520, 521):
+                red = gen.rbytes(r, n)
+                k, v = call(lambda: str(_P2SH.from_redeemScript(CScript(red))))
+                R.add("x.p2shaddr", {"redeem": b2l(red)}, {"k": "ret", "text": text(v)} if k == "ret" else dict(exc_info(v), k="exc"), chain=ch)
+            sec = CBitcoinSecret.from_secret_bytes(gen.rbytes(r, 32), bool(r.getrandbits(1)))
+            good = bytes(sec.pub)
+            for pub, acc in ((good, False), (good, True), (b"\x02" + bytes(32), False), (b"\x02" + bytes(32), True), (good[:-1], False), (good[:-1], True),
+                             (b"", True), (b"\x05" + good[1:], False), (b"\x04" + good[1:33] + bytes(32), False)):
+                k, v = call(lambda: str(_P2PKH.from_pubkey(pub, acc)))
+                R.add("x.frompubkey", {"pub": b2l(pub), "accept": acc}, {"k": "ret", "text": text(v)} if k == "ret" else dict(exc_info(v), k="exc"), chain=ch, _cost=3000)
+    bitcoin.SelectParams("mainnet")
     # ---- RPC request shapes: what each Proxy method puts on the wire
     import bitcoin.rpc as rpc
     from bitcoin.wallet import CBitcoinAddress, P2PKHBitcoinAddress
